@@ -293,6 +293,21 @@ def chain_nfa(rng, k=None, sigma='ab', eps='_'):
     return {'Q': Q, 'Sigma': list(sigma), 'delta': sorted([q, a, sorted(t)] for (q, a), t in d.items()), 'q0': chain[0], 'F': F, 'eps': eps}
 
 
+def spelling_pda(rng):
+    """two runs reach the same state with the stacks [x, y] and [xy] (same spelling, different stacks) and continue differently"""
+    x, y = rng.choice([('x', 'y'), ('a', 'b'), ('1', '2'), ('p', 'q')])
+    xy = x + y
+    e = rng.choice(['_', ''])
+    Q = ['s', 'm', 'n', 't', 'u', 'f', 'g']
+    delta = [['s', 'a', e, 'm', x], ['m', 'a', e, 't', y],          # aa: (t, [x, y])
+             ['s', 'a', e, 'n', e], ['n', 'a', e, 't', xy],         # aa: (t, [xy])
+             ['t', 'b', y, 'u', e], ['u', 'b', x, 'f', e],          # pops y then x
+             ['t', 'b', xy, 'g', e]]                                # pops xy
+    rng.shuffle(delta)
+    F = rng.choice([['f'], ['g'], ['f', 'g']])
+    return {'Q': Q, 'Sigma': ['a', 'b'], 'Gamma': sorted([x, y, xy]), 'delta': delta, 'q0': 's', 'F': F, 'eps': e}
+
+
 def relabel_re(t, codes):
     """rename the symbols 0..k-1 of a regexp tree to the given codes"""
     if t[0] == 's':
